@@ -105,6 +105,11 @@ def keyword_cases(syntax):
         for alt in d[2]:
             if re.match(r'^[a-z]+$', alt):
                 out.append((key, d[1], alt))
+            elif ',' in alt and '(' not in alt and '$' not in alt:
+                # comma list (font stacks): every bare word of the list is a keyword, spelled as in the table
+                for word in [w.strip() for w in alt.split(',')]:
+                    if re.match(r'^[A-Za-z]+$', word):
+                        out.append((key, d[1], word))
     return out
 
 
@@ -120,7 +125,7 @@ def mk_keywords(syntax, part, nparts):
                 return 'skip'
             key, prop, kw = cases[i]
             typed = kw if case == 0 else kw.upper() if case == 1 else ''.join(
-                [c.upper() if j % 2 else c for j, c in enumerate(kw)])
+                [c.upper() if j % 2 else c.lower() for j, c in enumerate(kw)])
             out = expand_concrete_tokens(key + ':' + typed, make_css_config({'type': 'stylesheet', 'syntax': syntax}))
             exp = prop + between + kw + after + (' ' if wrong else '')
             return True if out == exp else 'keyword_not_resolved:' + key + ':' + typed
